@@ -16,4 +16,26 @@ CHECKS = {
         'note': 'Trusted: VC generator (pyvc), z3/cvc5, outsourcer, CPython. Assumed: induction argument on paper (A-meta), A-subst, '
                 'A-uniform (arity <= 3 quick / <= 4 thorough proved outright; literal sentinels), re contract, driver contract, well-formed grammars (partial correctness).',
     },
+    'C03': {
+        'category': 'proof',
+        'technique': 'contract-based deductive verification: loop invariants over recursive spec functions on the emitted List/Sep fragments, abstract children, z3/cvc5',
+        'text': 'List with literal, numeric-string and data-dependent bounds (free non-negative integers of the VC) and Sep over all 12 accepted '
+                'option combinations x child flags: the emitted loops are proved (unbounded, all inputs) to implement the greedy bounded / '
+                'separated-list meaning, including trailer handling, kept separators, allow_empty, require_separator, and position '
+                'restoration consistent with the real flags; constructor rejections and the surface-syntax mapping are decided exactly.',
+        'design_ref': 'DESIGN.md 6 C03',
+        'note': 'As C01. Known finding carved out as a separate unit: run-time max < min (everything is proved under max >= min). '
+                'Name bounds assumed to be non-negative integers.',
+    },
+    'C05': {
+        'category': 'proof',
+        'technique': 'contract-based deductive verification: environment-passing child contracts, heap contract for class bodies, case-complete closure analysis of emitted helpers',
+        'text': 'Let, Where, Apply, inline Python, class bodies (15 member shapes) and data-dependent repetition counts: emitted fragments proved '
+                'against an environment-passing spec in which each child sees exactly the bindings made earlier in the same attempt; class '
+                'bodies produce a fresh instance over the named non-omitted members in order, with frame condition on the heap. '
+                'Class._compile is tied to the verified fragment by exact text comparison; helper-function closure decided case by case.',
+        'design_ref': 'DESIGN.md 6 C05',
+        'note': 'As C01. Known findings: let-shadowing clobbers the outer binding; names used in inline Python / repetition bounds are not '
+                'captured when an expression is spilled or passed as an argument. Activation isolation rests on CPython local-variable semantics.',
+    },
 }
